@@ -671,6 +671,25 @@ fn failure_kinds() -> Vec<(&'static str, &'static str, FailFn)> {
         }),
         k("vector-length+65536:nested-in-list-2nd", "vector-dimension", |sv| sv.add_value(&vec![vec![1i32, 2], vec![1i32; 2 + 65536]], &ct("list<vector<int,2>>"))),
         k("vector-wrong-dimension", "vector-dimension", |sv| sv.add_value(&vec![1i32, 2, 3], &ct("vector<int,2>"))),
+        k("tuple-too-long:null-surplus:[1,None]->tuple<int>", "typecheck", |sv| sv.add_value(&CqlValue::Tuple(vec![Some(CqlValue::Int(1)), None]), &ct("tuple<int>"))),
+        k("tuple-too-long:null-surplus:[1,2,None,None]->tuple<int,int>", "typecheck", |sv| sv.add_value(&CqlValue::Tuple(vec![Some(CqlValue::Int(1)), Some(CqlValue::Int(2)), None, None]), &ct("tuple<int,int>"))),
+        k("tuple-too-long:all-null:[None,None,None]->tuple<int,int>", "typecheck", |sv| sv.add_value(&CqlValue::Tuple(vec![None, None, None]), &ct("tuple<int,int>"))),
+        k("tuple-too-long:all-null:[None]->tuple<>", "typecheck", |sv| sv.add_value(&CqlValue::Tuple(vec![None]), &ct("tuple<>"))),
+        k("tuple-too-long:mixed-surplus:[1,None,3]->tuple<int,int>", "typecheck", |sv| sv.add_value(&CqlValue::Tuple(vec![Some(CqlValue::Int(1)), None, Some(CqlValue::Int(3))]), &ct("tuple<int,int>"))),
+        k("tuple-too-long:null-surplus:[None,2,None]->tuple<int,int>", "typecheck", |sv| sv.add_value(&CqlValue::Tuple(vec![None, Some(CqlValue::Int(2)), None]), &ct("tuple<int,int>"))),
+        k("tuple-too-long:null-surplus:list-2nd-element", "typecheck", |sv| {
+            sv.add_value(&vec![CqlValue::Tuple(vec![Some(CqlValue::Int(1))]), CqlValue::Tuple(vec![Some(CqlValue::Int(1)), None])], &ct("list<tuple<int>>"))
+        }),
+        k("tuple-too-long:null-surplus:udt-field", "typecheck", |sv| sv.add_value(&cql_udt(vec![("a", Some(CqlValue::Tuple(vec![Some(CqlValue::Int(1)), None, None])))], "u1"), &ct("udt:ks.u1<a:tuple<int,int>>"))),
+        k("tuple-too-long:null-surplus:map-value", "typecheck", |sv| sv.add_value(&CqlValue::Map(vec![(CqlValue::Int(1), CqlValue::Tuple(vec![None, None]))]), &ct("map<int,tuple<int>>"))),
+        k("tuple-too-long:null-surplus:Option-wrapped", "typecheck", |sv| sv.add_value(&Some(CqlValue::Tuple(vec![Some(CqlValue::Int(1)), None])), &ct("tuple<int>"))),
+        k("udt-unknown-field:null-value", "typecheck", |sv| sv.add_value(&cql_udt(vec![("a", Some(CqlValue::Int(1))), ("zz", None)], "u2"), &ct("udt:ks.u2<a:int,b:text>"))),
+        k("udt-unknown-field:null-value-only", "typecheck", |sv| sv.add_value(&cql_udt(vec![("zz", None)], "u2"), &ct("udt:ks.u2<a:int,b:text>"))),
+        k("udt-unknown-field:all-fields-null-plus-unknown-null", "typecheck", |sv| sv.add_value(&cql_udt(vec![("a", None), ("b", None), ("c", None)], "u2"), &ct("udt:ks.u2<a:int,b:text>"))),
+        k("udt-unknown-field:null-value:list-2nd-element", "typecheck", |sv| {
+            sv.add_value(&vec![cql_udt(vec![("a", Some(CqlValue::Int(1)))], "u1"), cql_udt(vec![("a", Some(CqlValue::Int(2))), ("b", None)], "u1")], &ct("list<udt:ks.u1<a:int>>"))
+        }),
+        k("udt-unknown-field:null-value:tuple-field", "typecheck", |sv| sv.add_value(&CqlValue::Tuple(vec![Some(CqlValue::Int(1)), Some(cql_udt(vec![("a", None), ("q", None)], "u1"))]), &ct("tuple<int,udt:ks.u1<a:int>>"))),
         k("tuple-too-long:CqlValue", "typecheck", |sv| sv.add_value(&CqlValue::Tuple(vec![Some(CqlValue::Int(1)), Some(CqlValue::Int(2)), Some(CqlValue::Int(3))]), &ct("tuple<int,int>"))),
         k("tuple-too-long:rust-tuple", "typecheck", |sv| sv.add_value(&(1i32, 2i32, 3i32), &ct("tuple<int,int>"))),
         k("tuple-2nd-field:rust-tuple", "typecheck", |sv| sv.add_value(&(1i32, "x".to_string()), &ct("tuple<int,int>"))),
@@ -873,7 +892,7 @@ pub fn run_rollback(r: &Report) {
         }
     }
     check_too_many(r);
-    r.set_rule("E-ENUM rollback. Every sequence of 0..3 (thorough: 0..4) good values over {int, text, list<int>, null, not-set, empty blob} (259 / 1555 prefixes) x every failure kind (46: wrong native type x8 incl. through &T, Box, MaybeUnset, SecretBox; three-level nesting list<tuple<int,udt>>; a map's 2nd value whose list's 2nd element fails; typed BTreeMap's last value; inner vector dimension; set bound to a map column; sequences of length N+65536 / N+131072 / 65536 for N=0 bound to vector<T,N> (fixed and variable width; Vec, [T], CqlValue::Vector, nested); 2nd element/key/value/field failing in list, set, list<list>, map, fixed and variable vector, tuple, UDT, list<UDT>; wrong vector dimension; tuple too long x2; unknown UDT field; UDT name mismatch; empty into non-emptiable x2; value overflow x3; simulated size overflow after 0 / 33+nested bytes, inside list and tuple): the list is bytewise, count-wise and cell-wise identical after the failed add, the error has the expected root cause, and a following good value lands as the reference encodes it; every ordered pair of failures in a row; the 65536th value (good or failing) on a full list. distinct_nontrivial = cases where the failure happened, state was verified intact and the next value verified.");
+    r.set_rule("E-ENUM rollback. Every sequence of 0..3 (thorough: 0..4) good values over {int, text, list<int>, null, not-set, empty blob} (259 / 1555 prefixes) x every failure kind (61: wrong native type x8 incl. through &T, Box, MaybeUnset, SecretBox; three-level nesting list<tuple<int,udt>>; a map's 2nd value whose list's 2nd element fails; typed BTreeMap's last value; inner vector dimension; set bound to a map column; dynamic tuples longer than the CQL tuple whose surplus elements are null (all-null, trailing-null, mixed; top level, Option-wrapped, as list element, map value, UDT field); dynamic UDT values naming an unknown field whose value is null (top level and nested); sequences of length N+65536 / N+131072 / 65536 for N=0 bound to vector<T,N> (fixed and variable width; Vec, [T], CqlValue::Vector, nested); 2nd element/key/value/field failing in list, set, list<list>, map, fixed and variable vector, tuple, UDT, list<UDT>; wrong vector dimension; tuple too long x2; unknown UDT field; UDT name mismatch; empty into non-emptiable x2; value overflow x3; simulated size overflow after 0 / 33+nested bytes, inside list and tuple): the list is bytewise, count-wise and cell-wise identical after the failed add, the error has the expected root cause, and a following good value lands as the reference encodes it; every ordered pair of failures in a row; the 65536th value (good or failing) on a full list. distinct_nontrivial = cases where the failure happened, state was verified intact and the next value verified.");
     r.set_exhaustive(true);
     r.assume("a > 2 GiB value cannot be materialised; the size-overflow path is simulated by a SerializeValue impl that appends bytes (directly and through nested sub-writers) and then returns an error");
     r.sample(json!({"prefix": ["int 1", "list<int> [1,2]"], "failing": "vector-variable-2nd-element", "then": "int 0x11223344"}));
